@@ -1,7 +1,78 @@
 import Dhcp.Driver.Hex
-/- Line-protocol operations of the `Label` family (stub until the model lands). -/
-namespace Dhcp.Driver
+import Dhcp.Label
+/-
+  Line-protocol operations of the `Label` family (rfc1035label).
 
-def stepLabel (_op : String) (_args : List String) : Option String := none
+  Name lists: `-` is the empty list; otherwise names separated by `,`, each
+  name as lowercase hex of its bytes, the empty name as `.`
+  (e.g. `6578616d706c652e636f6d,.,61`).
+
+    labdec  <hex>              labelsFromBytes            -> ok <names> | err | panic
+    labenc  <names>            NewLabels+Labels=…+ToBytes -> ok <hex>
+    labre   <hex>              FromBytes then ToBytes     -> ok <hex> | err | panic
+    labedit <hex> <names>      FromBytes, Labels = names, ToBytes -> ok <hex> | err | panic
+    labseq  <hex|new> <op>…    edit/ToBytes history on one label set (see below)
+-/
+namespace Dhcp.Driver
+open Dhcp Dhcp.Label
+
+def showName (n : Bytes) : String := if n.isEmpty then "." else hex n
+
+def showNames (ns : List Bytes) : String :=
+  if ns.isEmpty then "-" else ",".intercalate (ns.map showName)
+
+def parseName (s : String) : Option Bytes :=
+  if s == "." then some [] else if s == "-" then none else unhex s
+
+def parseNames (s : String) : Option (List Bytes) :=
+  if s == "-" then some [] else (s.splitOn ",").mapM parseName
+
+def showResL {α} (sh : α → String) : Res α → String
+  | .ok a => "ok " ++ sh a
+  | .err => "err"
+  | .panic => "panic"
+
+def stepLabel (op : String) (args : List String) : Option String :=
+  match op, args with
+  | "labdec", [h] => do
+    let b ← unhex h
+    pure (showResL showNames (labelsFromBytes b))
+  | "labenc", [s] => do
+    let ns ← parseNames s
+    pure (showResL hex ({ Labels.new with labels := ns }).toBytesR)
+  | "labre", [h] => do
+    let b ← unhex h
+    pure (showResL hex ((Labels.fromBytes (some b)).bind Labels.toBytesR))
+  | "labedit", [h, s] => do
+    let b ← unhex h
+    let ns ← parseNames s
+    pure (showResL hex ((Labels.fromBytes (some b)).bind (fun l => ({ l with labels := ns }).toBytesR)))
+  | "labseq", h :: ops => do
+    -- a history of caller edits of the public `Labels` slice interleaved with
+    -- `ToBytes` calls on ONE label set: `t` = ToBytes, `s:<i>:<name>` = in-place
+    -- element write, `a:<name>` = append, `r:<names>` = replace the slice,
+    -- `d:<i>` = delete element i. Output: the bytes of every `t`, in order.
+    let l0 ← (if h == "new" then some (Res.ok Labels.new) else (unhex h).map (fun b => Labels.fromBytes (some b)))
+    match l0 with
+    | .err => pure "err"
+    | .panic => pure "panic"
+    | .ok l0 =>
+      let step (st : Option (Labels × List String)) (op : String) : Option (Labels × List String) := do
+        let (l, outs) ← st
+        match op.splitOn ":" with
+        | ["t"] => pure (l, outs ++ [showResL hex l.toBytesR])
+        | ["s", i, n] => do
+          let i ← i.toNat?
+          let n ← parseName n
+          pure ({ l with labels := if i < l.labels.length then l.labels.set i n else l.labels }, outs)
+        | ["a", n] => do pure ({ l with labels := l.labels ++ [← parseName n] }, outs)
+        | ["r", ns] => do pure ({ l with labels := ← parseNames ns }, outs)
+        | ["d", i] => do
+          let i ← i.toNat?
+          pure ({ l with labels := l.labels.eraseIdx i }, outs)
+        | _ => none
+      let (_, outs) ← ops.foldl step (some (l0, []))
+      pure ("ok " ++ " ".intercalate outs)
+  | _, _ => none
 
 end Dhcp.Driver
